@@ -5,14 +5,16 @@ from . import common
 SPEC_THEOREM = 'Props/C20: index arithmetic of every position-taking function stays inside i64/Z for all i32 arguments (Part A); recursion depth is unbounded in the input (Part B, refuted bound)'
 TRUSTED = ['Coq 8.16.1 kernel', 'extraction + OCaml driver', 'Rust harness (debug build: overflow checks on; one child process per deep case)']
 ASSUMPTIONS = ['the stack limit itself is outside the model: Part B is exhibited by child processes on this machine (default 8 MiB main-thread stack, debug build)']
-RULE = 'Part A: every position-taking function x i32 extremes and boundaries x array lengths 0..5, JSONPath indices/slices with last +- extremes, get_by_index at usize extremes. Part B: 22 entry points x arrays/objects x depths 10^2..10^5 (5*10^5 thorough), each in its own process; non-trivial = a case at an extreme argument or depth >= 1000'
+RULE = 'Part A: every position-taking function x i32 extremes and boundaries x array lengths 0..5, JSONPath indices/slices with last +- extremes, get_by_index at usize extremes. Part B: 24 entry points x arrays/objects x depths 10^2..10^5 (5*10^5 thorough), each in its own process; non-trivial = a case at an extreme argument or depth >= 1000'
 
 EXT = [0, 1, -1, 2, -2, 5, -5, 2147483647, -2147483647, -2147483648, 2147483646, 1073741824, -1073741824, 65536, -65536]
 ENTRY = ['parse', 'parse_drop', 'decode', 'encode', 'to_string', 'to_pretty_string', 'compare', 'get_by_path', 'comparable', 'contains', 'strip_nulls', 'to_serde_json', 'traverse',
          # the buffer writers and the key-path reader (second review, M5): delete_by_keypath descends one call per level (open known
          # finding); the others were checked NOT to recurse on the document (ok at 10^5 levels) and must stay that way
          'delete_by_keypath', 'get_by_keypath', 'concat', 'array_insert', 'object_insert', 'delete_by_name', 'delete_by_index',
-         'object_delete_pick', 'array_distinct']
+         'object_delete_pick', 'array_distinct',
+         # the renderers on a deep document given as JSON text: they hand the text back without parsing it and must stay that way
+         'to_string_text', 'to_pretty_string_text']
 
 
 def generate(ctx):
